@@ -70,18 +70,18 @@ NNext == /\ Len(w) < MaxLen
 NSpec == NInit /\ [][NNext]_nvars
 
 (* Directed family: calls nested D deep - n ( n ( .. ) [b] ) [b] - each closing parenthesis optionally followed by  *)
-(* the body opener, behind 0..2 other tokens, cut short by 0..MaxCut tokens (unclosed groups).  This is where a    *)
+(* the body opener, behind 0..2 other tokens, 0 or 3 other tokens after each (, cut short by 0..MaxCut tokens.  This is where a    *)
 (* header sits two and three searches deep; exhaustive enumeration reaches such sequences only beyond 8 tokens.  *)
 (* For these long sequences the ghost is computed by the stack loop of NestedSearch.tla, one search per step     *)
 (* (NestedSearch's HIsRef: the loop computes the recursive definition) - TLC re-evaluates LET definitions inside  *)
 (* recursive operators, so the recursion above is exponential in the nesting depth.                              *)
 CONSTANTS MaxNest, MaxCut
-RECURSIVE Nest(_, _, _)
-Nest(sh, d, bs) == IF d = 0 THEN <<>>
-                   ELSE <<sh.n, sh.o>> \o Nest(sh, d - 1, bs) \o <<sh.c>> \o (IF bs[d] /\ sh.b # 0 THEN <<sh.b>> ELSE <<>>)
 Lead(sh, k) == [ i \in 1..k |-> sh.x ]
+RECURSIVE Nest(_, _, _, _)
+Nest(sh, d, bs, pad) == IF d = 0 THEN <<>>      \* pad other tokens in front of each inner call: the header sits late in its range
+                        ELSE <<sh.n, sh.o>> \o Lead(sh, pad) \o Nest(sh, d - 1, bs, pad) \o <<sh.c>> \o (IF bs[d] /\ sh.b # 0 THEN <<sh.b>> ELSE <<>>)
 Directed(p) == LET sh == AShape[p] IN
-  UNION { UNION { { LET full == Lead(sh, k) \o Nest(sh, d, bs) IN SubSeq(full, 1, Len(full) - cut) : cut \in 0..MaxCut, k \in 0..2 }
+  UNION { UNION { { LET full == Lead(sh, k) \o Nest(sh, d, bs, pad) IN SubSeq(full, 1, Len(full) - cut) : cut \in 0..MaxCut, k \in 0..2, pad \in {0, 3} }
                   : bs \in [1..d -> BOOLEAN] } : d \in 1..MaxNest }
 VARIABLES ranges, pend, pd, result, phase
 dvars == <<pr, w, v, amb, deep, ranges, pend, pd, result, phase>>
